@@ -108,6 +108,8 @@ def tokens(log):
             out.append([2, c]); i += 2
         elif k == 'values' and i + 2 < len(log) and log[i + 1][0] == 'iter_values' and log[i + 2][0] == 'next':
             out.append([3, c]); i += 3
+        elif k == 'item_read':
+            out.append([4, c]); i += 1        # one (key, value) pair read through .items()
         else:
             out.append([99, k + ':' + str(c)]); i += 1
     return out
